@@ -18,6 +18,8 @@ EXPLICIT = {
     # append / prepend on an implicit-path variable WITHOUT a delimiter file: nothing may be invented on read (or written back)
     "path-append-nodelim": [("all", "append", b"PATH", b"/extra/bin")],
     "libs-prepend-nodelim": [("build", "prepend", b"LIBRARY_PATH", b"/pre"), ("launch", "append", b"LD_LIBRARY_PATH", b"/post"), ("all", "prepend", b"PKG_CONFIG_PATH", b"/pc")],
+    # a delimiter file whose appends live in OTHER env directories: it stays where it is across read -> write cycles
+    "lone-delim": [("all", "delim", b"LD_LIBRARY_PATH", b";"), ("build", "append", b"LD_LIBRARY_PATH", b"/b"), ("launch", "prepend", b"LD_LIBRARY_PATH", b"/l"), ("launch", "delim", b"PATH", b":")],
     "cpath-default-build+proc": [("build", "default", b"CPATH", b"/dflt"), ("process:web", "override", b"PATH", b"/procpath")],
 }
 STARTS = [{}, {b"PATH": b"/usr/bin", b"LD_LIBRARY_PATH": b"", b"CPATH": b"c"},
